@@ -30,7 +30,7 @@ def term(pool, r):
 
 
 def run(run, args):
-    n = 60 if run.tier == "quick" else 1500
+    n = (60 if run.tier == "quick" else 1500) * run.scale
     ok, log = build_harness()
     run.oblige("harness builds against /repo", ok, log[-400:] if not ok else "")
     if not ok:
